@@ -444,6 +444,30 @@ func (m *coreMon) check(op string, res string, cur *coreSnap) {
 			}
 		}
 	}
+	// ---- C07 / C20: the x/sequencer parameters change only by a MsgUpdateParams from the governance authority,
+	// only to valid values, and the message changes nothing else
+	if cur.SP != prev.SP {
+		switch {
+		case !(f[0] == "set_seq_params" && res == "ok"):
+			m.violate("C07/params/seq-params-changed-outside-update-params", fmt.Sprintf("%s -> %s by %s (res %s)", prev.SP, cur.SP, op, res))
+		case kv["auth"] != "gov":
+			m.violate("C07/params/seq-params-changed-without-governance-authority", op)
+		}
+	}
+	if f[0] == "set_seq_params" && res == "ok" {
+		if kv["notice"] == "0" || kv["kick"] == "0" {
+			m.violate("C07/params/invalid-seq-params-accepted", op)
+		}
+		if want := fmt.Sprintf("%s,%s,%s,%s,%s,%s", kv["notice"], kv["kick"], kv["mul"], kv["abs"], kv["dsu"], kv["dl"]); cur.SP != want {
+			m.violate("C07/params/stored-seq-params-differ-from-message", fmt.Sprintf("stored %s, message %s", cur.SP, want))
+		}
+		a, b := *prev, *cur
+		a.SP, b.SP = "", ""
+		if a.renderFull("x") != b.renderFull("x") {
+			m.violate("C07/params/update-params-changed-more-than-the-params", diffFields(a.renderFull("x"), b.renderFull("x")))
+		}
+		m.r.Hit("set_seq_params/accepted")
+	}
 	// ---- C11 / C20: rollapp owners (recipients of the rollapp gauges' payouts at epoch end): changed only
 	// by a MsgTransferOwnership signed by the current owner, never to an address the bank refuses
 	for ri, r := range cur.Ras {
@@ -770,6 +794,9 @@ func (c *coreGen) next(s *coreSnap, inBlock *bool, step int) string {
 	if g.Chance(3 + map[string]int{"C11": 6, "C18": 2}[c.focus]) {
 		return c.genXfer(s, ri)
 	}
+	if g.Chance(2 + map[string]int{"C07": 3, "C08": 4, "C11": 2, "C18": 1}[c.focus]) {
+		return c.genSeqParams()
+	}
 	if len(allSeqs) > 0 && g.Chance(3+map[string]int{"C06": 4, "C07": 4, "C08": 3, "C11": 2}[c.focus]) {
 		return c.genPunish(s, ri, members, allSeqs)
 	}
@@ -943,6 +970,36 @@ func (c *coreGen) genUpdate(s *coreSnap, ri int) string {
 		by = c.pickActor()
 	}
 	return fmt.Sprintf("update r%d by=a%d start=%d num=%d bdlen=%d rev=%d last=%d seqerr=%s ts=%s drs=%d rooterr=%s%s", ri, by, start, num, bdlen, rev, last, seqerr, ts, drs, rooterr, drs0)
+}
+
+// genSeqParams: x/sequencer MsgUpdateParams — a fresh valid parameter set (the pools of coreGenParams), or
+// one invalid field (notice period 0, kick threshold 0, multiplier above 1), or a signer without authority
+func (c *coreGen) genSeqParams() string {
+	g := c.g
+	notice := []int64{1000000000, 5000000000, 12000000000}[g.Intn(3)]
+	kick := []uint64{1, 2, 4}[g.Intn(3)]
+	mul := []string{"0", "1", "10000000000000000", "333333333333333333", "500000000000000000", "1000000000000000000"}[g.Intn(6)]
+	abs := []uint64{0, 1, 7, 50, 1000}[g.Intn(5)]
+	dsu := []uint64{0, 1, 2}[g.Intn(3)]
+	dl := []uint64{0, 1, 3}[g.Intn(3)]
+	auth := "gov"
+	switch x := g.Intn(100); {
+	case x < 8:
+		auth = fmt.Sprintf("a%d", c.pickActor())
+		c.r.Hit("set_seq_params/wrong-authority")
+	case x < 12:
+		notice = 0
+		c.r.Hit("set_seq_params/zero-notice-period")
+	case x < 16:
+		kick = 0
+		c.r.Hit("set_seq_params/zero-kick-threshold")
+	case x < 20:
+		mul = "1000000000000000001"
+		c.r.Hit("set_seq_params/multiplier-above-one")
+	default:
+		c.r.Hit("set_seq_params/valid")
+	}
+	return fmt.Sprintf("set_seq_params notice=%d kick=%d mul=%s abs=%d dsu=%d dl=%d auth=%s", notice, kick, mul, abs, dsu, dl, auth)
 }
 
 // genXfer: MsgTransferOwnership — signed by the current owner / the first owner (an old owner retrying
